@@ -209,6 +209,7 @@ def targeted(scope, quick):
                 out.append(_desc(kind, cell, form, 2, pat(["perm", "dof"], 3), sa=sa))
                 out.append(_desc(kind, cell, form, 2, pat(["perm", "ent"], -4), _pert("in", 0, E - 1, 0, 0, "pts"), sa=sa))
                 out.append(_desc(kind, cell, form, 2, pat(["perm", "pt"], 0), _pert("in", P - 1, E - 1, 1, 0, "entry"), sa=sa))
+                out.append(_desc(kind, cell, form, 2, pat(["pt", "dof"]), _pert("in", P - 1, 0, 0, 0, "entry"), atol="zero", sa=sa))
         out.append(_desc("interior_facet", "triangle", "fv", 2, pat(["perm", "ent", "pt", "dof"]), second="within", sa=0, sb=1))
         out.append(_desc("interior_facet", "triangle", "uv", 3, ("identity", ["perm"], 0), sa=1, sb=0))
         out.append(_desc("expr_facet", "triangle", "fv", 2, pat(["pt", "dof"], 3), second="straddle"))
@@ -225,6 +226,9 @@ def targeted(scope, quick):
             out.append(_desc("exterior_facet", cell, "f", 2, pat(["ent"], 3), _pert("ramp", 0, E - 1, 0, 0, "pts")))
             out.append(_desc("vertex", cell, "fv", 1, pat(["ent", "dof"]), _pert("mid", 0, E - 1, 0, 0, "entry"), second="equal", atol="large"))
             out.append(_desc("vertex", cell, "v", 1, pat(["dof"], 3), _pert("in", 0, E - 1, 0, D - 1, "entry")))
+            # 3e-10 next to an exact 0, nothing clamped: only the ABSOLUTE part of the tolerance makes these uniform / piecewise
+            out.append(_desc("exterior_facet", cell, "v", 2, pat(["pt", "dof"]), _pert("in", 0, E - 1, 0, 0, "entry"), atol="zero"))
+            out.append(_desc("exterior_facet", cell, "v", 2, pat(["ent", "dof"]), _pert("in", 0, 0, 1, 0, "entry"), atol="zero"))
         out.append(_desc("exterior_facet", "triangle", "uv", 3, ("identity", [], 0)))
         out.append(_desc("exterior_facet", "triangle", "v", 3, ("identity", ["ent"], 0)))
     else:
@@ -428,7 +432,7 @@ def corruptions(rec):
 # ---------------------------------------------------------------------------
 # (e) verdicts and counters
 
-def report(chk, recs, verdicts, label_prefix="s7"):
+def report(chk, recs, verdicts, label_prefix="s7", scope="x"):
     nviol = 0
     ttypes, kinds, perm_tt, evals, nontrivial, hits = {}, {}, {}, 0, set(), 0
     samples = []
@@ -479,8 +483,8 @@ def report(chk, recs, verdicts, label_prefix="s7"):
                           {"desc": d, "clause": clause, "detail": detail, "mts": [{k: m[k] for k in ("role", "ttype", "shape", "isperm", "nameix")} for m in r["mts"]],
                            "mtinfo": r.get("mtinfo")})
     chk.add(traces_validated_against_impl=len([r for r in recs if not r.get("error")]), evaluations=evals,
-            distinct_nontrivial=len(nontrivial), s7_ttypes=ttypes, s7_kinds=kinds, s7_ttype_perm=perm_tt, s7_dedupe_hits=hits,
-            samples=samples)
+            distinct_nontrivial=len(nontrivial), s7_dedupe_hits=hits, samples=samples,
+            **{f"s7_{scope}_ttypes": ttypes, f"s7_{scope}_kinds": kinds, f"s7_{scope}_ttype_perm": perm_tt})
     return {"violations": nviol, "ttypes": ttypes, "kinds": kinds, "ttype_perm": perm_tt, "evaluations": evals,
             "distinct_nontrivial": len(nontrivial), "dedupe_hits": hits}
 
@@ -552,7 +556,7 @@ def run_tables(chk, scope):
         t1 = time.time()
         recs, verdicts = realise_and_judge(chk, chosen, full=not quick, nworkers=3 if quick else 4)
         t2 = time.time()
-        res.update(report(chk, recs, verdicts))
+        res.update(report(chk, recs, verdicts, scope=scope))
         res.update(candidates=len(cands), candidates_invalid=invalid, realised=len(recs))
         if not quick:
             mine = [k for k, v in MUTATIONS.items() if v[3] == scope]
